@@ -189,6 +189,10 @@ func diffClasses(want, got string, tokenLevelOnly, fine bool) []diffClass {
 		add("unclassified (the lexer does not tile one of the texts)", map[string]any{"want_ok": okA, "got_ok": okB})
 		return out
 	}
+	if cls := reorderClass(A, B); cls != "" {
+		add(cls, map[string]any{"note": "same multiset of significant tokens, different order"})
+		return out
+	}
 	gapAdd := add
 	if tokenLevelOnly {
 		gapAdd = func(class string, detail map[string]any) {
@@ -287,6 +291,22 @@ func diffClasses(want, got string, tokenLevelOnly, fine bool) []diffClass {
 	return out
 }
 
+// classCategory groups the classes (used as a suffix of the violation kind so
+// that no single kind carries dozens of signatures).
+func classCategory(class string) string {
+	switch {
+	case strings.HasPrefix(class, "token-"), strings.HasPrefix(class, "tokens-"), strings.HasPrefix(class, "top-level-statements"):
+		return "token"
+	case strings.HasPrefix(class, "comment-"), strings.Contains(class, "rewritten"):
+		return "comment"
+	case strings.HasPrefix(class, "final-newline"), strings.HasPrefix(class, "eof-"):
+		return "eof"
+	case strings.HasPrefix(class, "unclassified"):
+		return "other"
+	}
+	return "whitespace"
+}
+
 func classNames(ds []diffClass) []string {
 	var s []string
 	for _, d := range ds {
@@ -304,4 +324,152 @@ func firstDiffContext(a, b string) map[string]any {
 	}
 	lo := max(0, i-60)
 	return map[string]any{"offset": i, "want": fmt.Sprintf("%q", a[lo:min(len(a), i+60)]), "got": fmt.Sprintf("%q", b[lo:min(len(b), i+60)])}
+}
+
+// statements splits the significant tokens into statements (ended by `;` or a
+// closing `}` at bracket depth 0 of the statement) and returns them as strings.
+func statements(v tokView) []string {
+	var out []string
+	var cur []string
+	depth := 0
+	for _, t := range v.Toks {
+		cur = append(cur, t.Text)
+		switch t.Text {
+		case "{", "[", "(":
+			depth++
+		case "}", "]", ")":
+			depth--
+		}
+		if depth <= 0 && (t.Text == ";" || t.Text == "}") {
+			out = append(out, strings.Join(cur, " "))
+			cur = nil
+			depth = 0
+		}
+	}
+	if len(cur) > 0 {
+		out = append(out, strings.Join(cur, " "))
+	}
+	return out
+}
+
+// reorderClass recognises a pure reordering: the same significant tokens in a
+// different order. It names the statements that moved by their leading keyword.
+func reorderClass(A, B tokView) string {
+	if len(A.Toks) != len(B.Toks) {
+		return ""
+	}
+	same := true
+	for i := range A.Toks {
+		if A.Toks[i].Text != B.Toks[i].Text {
+			same = false
+			break
+		}
+	}
+	if same {
+		return ""
+	}
+	count := map[string]int{}
+	for _, t := range A.Toks {
+		count[t.Text]++
+	}
+	for _, t := range B.Toks {
+		count[t.Text]--
+	}
+	for _, n := range count {
+		if n != 0 {
+			return ""
+		}
+	}
+	sa, sb := statements(A), statements(B)
+	if len(sa) == len(sb) {
+		ca := map[string]int{}
+		for _, s := range sa {
+			ca[s]++
+		}
+		for _, s := range sb {
+			ca[s]--
+		}
+		ok := true
+		for _, n := range ca {
+			if n != 0 {
+				ok = false
+			}
+		}
+		if ok {
+			kw := "?"
+			for i := range sa {
+				if sa[i] != sb[i] {
+					kw = strings.SplitN(sa[i], " ", 2)[0]
+					break
+				}
+			}
+			return "top-level-statements-reordered (first moved statement starts with `" + kw + "`)"
+		}
+	}
+	return "tokens-reordered"
+}
+
+// commentSwallows reports whether some // comment of got consists of a // comment
+// of want followed by text that lexes to at least one significant token or
+// opens a block comment, i.e. the printer put live text on the same line
+// behind a line comment.
+func commentSwallows(want, got string) bool {
+	A, okA := viewOf(want)
+	B, okB := viewOf(got)
+	if !okA || !okB {
+		return false
+	}
+	orig := map[string]bool{}
+	var origList []string
+	collect := func(items []gapItem) {
+		for _, it := range items {
+			if it.Comment && strings.HasPrefix(it.Text, "//") {
+				t := strings.TrimRight(it.Text, " \t\r\n")
+				if !orig[t] {
+					orig[t] = true
+					origList = append(origList, t)
+				}
+			}
+		}
+	}
+	for _, t := range A.Toks {
+		collect(t.Lead)
+	}
+	collect(A.Trail)
+	check := func(items []gapItem) bool {
+		for _, it := range items {
+			if !it.Comment || !strings.HasPrefix(it.Text, "//") {
+				continue
+			}
+			t := strings.TrimRight(it.Text, " \t\r\n")
+			if orig[t] {
+				continue
+			}
+			best := ""
+			for _, o := range origList {
+				if len(o) > len(best) && strings.HasPrefix(t, o) {
+					best = o
+				}
+			}
+			if best == "" {
+				continue
+			}
+			rest := t[len(best):]
+			// A block-comment opener behind a // comment is dead text: the rest of
+			// that block comment leaks out as tokens on the following lines.
+			if strings.Contains(rest, "/*") {
+				return true
+			}
+			if v, ok := viewOf(rest); ok && len(v.Toks) > 0 {
+				return true
+			}
+		}
+		return false
+	}
+	for _, t := range B.Toks {
+		if check(t.Lead) {
+			return true
+		}
+	}
+	return check(B.Trail)
 }
